@@ -203,7 +203,7 @@ def main(scen_name, tier):
         for o in opts: modules[o] = build.build_module(os.path.join(workdir, o), scen.HARNESSES, o, 'm' + o)
         t_build = time.time() - t
         jobs = scen.jobs(tier, seed)
-        for j in jobs: j['opts_levels'] = list(opts)
+        for j in jobs: j['opts_levels'] = list(opts); j['tier'] = tier
         random.Random(seed).shuffle(jobs)
         budget = scen.BUDGET[tier] if hasattr(scen, 'BUDGET') else (240 if tier == 'quick' else 3600)
         if os.environ.get('VERIF_BUDGET'): budget = int(os.environ['VERIF_BUDGET'])
@@ -234,7 +234,7 @@ def report(scen, prop, tier, seed, jobs, results, cut, nat, known, ev_path, t_st
         incon.extend(r.get('inconclusive', []))
         walls.append((r.get('wall', 0), r['job'].get('name'), r['job'].get('field') or r['job'].get('forced') or r['job'].get('cfg')))
     # replay + classify
-    lines = []; nviol = 0; nknown = 0; validated = 0; mismatches = []
+    lines = []; nviol = 0; nknown = 0; validated = 0; mismatches = []; dropped = []
     rdir = os.path.join(VERIF, 'replays', prop)
     for vid in sorted(viol):
         v = viol[vid]
@@ -248,6 +248,8 @@ def report(scen, prop, tier, seed, jobs, results, cut, nat, known, ev_path, t_st
             if confirmed: validated += 1
             elif confirmed is False and v.get('class') == 'value': mismatches.append(vid)
         v['native_confirmed'] = confirmed
+        if v.get('class') == 'candidate' and confirmed is not True:
+            dropped.append(vid); continue        # a solver-found candidate that the real builds do not confirm is logged, not reported
         os.makedirs(rdir, exist_ok=True)
         rp = os.path.join(rdir, hashlib.md5(vid.encode()).hexdigest()[:10] + '.json')
         with open(rp, 'w') as f: json.dump({'property': prop, 'id': vid, 'detail': v['detail'], 'class': v.get('class'), 'native_confirmed': confirmed, 'replay': v.get('replay'), 'job': v.get('job')}, f, indent=1, sort_keys=True)
@@ -281,7 +283,7 @@ def report(scen, prop, tier, seed, jobs, results, cut, nat, known, ev_path, t_st
         'bounds': getattr(scen, 'BOUNDS', {}).get(tier, ''), 'outside_claim': getattr(scen, 'OUTSIDE', ''),
         'engine': ENGINE_DESC % z3.get_version_string(), 'ir_build_s': round(t_build, 1),
         'samples': samples or [{'note': 'no sample recorded'}], 'slowest_configurations': [[round(w, 1), str(n), str(f)[:80]] for w, n, f in sorted(walls, key=lambda x: -x[0])[:8]],
-        'violations_reported': nviol, 'known_findings_seen': nknown, 'status': status,
+        'violations_reported': nviol, 'known_findings_seen': nknown, 'status': status, 'candidates_not_confirmed_natively': dropped[:20],
         'inconclusive': incon[:20], 'crashes': crashes[:3], 'engine_native_mismatches': mismatches[:10],
         'exhaustive': False,
         'programs': len(jobs) * max(1, len(getattr(scen, 'OPTS', ['O1'])(tier) if callable(getattr(scen, 'OPTS', None)) else getattr(scen, 'OPTS', ['O1']))), 'disagreements_checked': agg['obligations'],
